@@ -42,11 +42,9 @@ def main():
             return res
         r1 = sh("/venv/bin/python %s" % demo, cwd=wt, env=env)
         res["demo_with_change_rc"] = r1.returncode
-        t = sh("/venv/bin/python -m pytest -q -p no:cacheprovider -n 12 2>&1 | tail -3", cwd=wt, env=env)
+        t = sh("/venv/bin/python -m pytest -q -p no:cacheprovider -n 6 2>&1 | tail -3", cwd=wt, env=env)
         m = re.search(r"(\d+) failed, (\d+) passed", t.stdout)
         res["baseline_with_change"] = m.group(0) if m else t.stdout[-200:]
-        f = sh("/venv/bin/python -m pytest -q -p no:cacheprovider -n 12 2>&1 | grep FAILED | sed 's/ - .*//' | sort", cwd=wt, env=env)
-        res["_failed_list"] = f.stdout
     finally:
         sh("git -C /repo worktree remove --force %s" % wt)
         shutil.rmtree(wt, ignore_errors=True)
